@@ -530,6 +530,10 @@ class SOMEIPSDEntry:
         oi2 = typing.cast(int, self.option_index_2)
         no1 = typing.cast(int, self.num_options_1)
         no2 = typing.cast(int, self.num_options_2)
+        if not (0 <= no1 <= 0x0F and 0 <= no2 <= 0x0F):
+            # the two counts share one byte: without this check 16 options in the second
+            # run would silently spill into the count of the first
+            raise struct.error("number of options per run must be in range 0..15")
         return self.__format.pack(
             self.sd_type.value,
             oi1,
